@@ -334,6 +334,7 @@ class IrToPythonCompiler:
 
         This is a non-optimal, but always working strategy.
         """
+        self.emit("_irpy_stack_top = len(rt.stack)")
         self.emit("_irpy_prev_block = None")
         self.emit(f"_irpy_current_block = '{ir_function.entry.name}'")
         self.emit("while True:")
@@ -361,8 +362,10 @@ class IrToPythonCompiler:
             self.emit(f"{phi_names} = {value_names}")
 
     def reset_stack(self):
-        self.emit(f"rt.free({self.stack_size})")
-        self.stack_size = 0
+        # Release what this invocation allocated. This cannot be counted at
+        # compile time: an alloc may sit in a block that was not executed,
+        # and a function can have more than one return.
+        self.emit("rt.free(len(rt.stack) - _irpy_stack_top)")
 
     def emit_jump(self, target: ir.Block):
         """Perform a jump in block mode."""
